@@ -67,6 +67,8 @@ func TestEngine(t *testing.T) {
 		engineCtrl(t, tr)
 	case "lister":
 		engineLister(t, tr)
+	case "join":
+		engineJoin(t, tr)
 	default:
 		t.Fatalf("unknown engine %q", *flagEngine)
 	}
